@@ -104,6 +104,16 @@ def descendantsV (es : List Edge) (v : Nat) : Trav :=
 def ancestorsV (es : List Edge) (v : Nat) : Trav :=
   descendantsV (flipEdges es) v
 
+/-- `getAncestorSet(v)` of internal/analysis/output_conflicts.go (used by `targetsAreOrdered` in the
+    output-conflict detection) with its memo cache left out: an explicit stack seeded with `inEdges[v]`, a
+    node is marked when it is popped, `v` itself is not marked. The Go loop pops from the end of the
+    stack where `dfs` pops from the front: the set and the number of pops (= number of pushes) are the
+    same. Cost = pops + the call. -/
+def ancestorSetV (es : List Edge) (v : Nat) : Trav :=
+  match dfs (flipEdges es) (fun _ => true) (2 * es.length) (preds es v) [] with
+  | .done vis steps => ⟨vis.reverse, steps + 1⟩
+  | _ => ⟨[], 0⟩
+
 /-- `GetDescendants(v)` before the fix. -/
 def descendantsPaths (es : List Edge) (fuel v : Nat) : List Nat := pathsFrom (succs es) fuel v
 /-- `GetAncestors(v)` before the fix. -/
